@@ -98,8 +98,33 @@ def scaling_tuple(contracted, target):
             (len(target), mem["g"], mem["v"], mem["o"]))
 
 
+def _two_hyper_term(rng, n_second):
+    """A_ia B_ij C_ij D_jb G_jc ...: two hyper indices (i on three, j on 2 + n_second objects); a
+    minimal group of three objects closes in one step to all objects that carry i or j"""
+    from adcgen.indices import get_symbols
+    from adcgen.sympy_objects import NonSymmetricTensor
+    occ = list(get_symbols("ijklmn"))
+    virt = list(get_symbols("abcdef"))
+    rng.shuffle(occ)
+    rng.shuffle(virt)
+    i, j = occ[0], occ[1]
+    names = ["c", "b", "g", "w", "x", "y", "z"]
+    rng.shuffle(names)
+    objs = [NonSymmetricTensor(names[0], (i, virt.pop())),
+            NonSymmetricTensor(names[1], (i, j)) ** rng.choice([1, 1, 2])]
+    if objs[1].is_Pow:
+        pass
+    else:
+        objs.append(NonSymmetricTensor(names[2], (i, j) if rng.random() < 0.5 else (j, i)))
+    for k in range(n_second):
+        objs.append(NonSymmetricTensor(names[3 + k], (j, virt.pop())))
+    rng.shuffle(objs)
+    from sympy import Mul as _Mul
+    return _Mul(*objs)
+
+
 def run_case(item):
-    sd, max_dim, max_n = item
+    sd, max_dim, max_n = item[:3]
     rng = random.Random(sd)
     from adcgen import Expr
     from adcgen.indices import Index, get_symbols
@@ -116,6 +141,9 @@ def run_case(item):
         term = g.term()
     except RuntimeError:
         return {"status": "skipped", "item": item}
+    if len(item) > 3 and item[3] == "two_hyper":
+        spin = False
+        term = _two_hyper_term(random.Random(sd + 17), item[4])
     if term is S.Zero or not consistent_bks(term):
         return {"status": "skipped", "item": item}
     allidx = sorted(term.atoms(Index), key=lambda s: (s.space, s.name, s.spin))
@@ -310,6 +338,9 @@ def main():
     base = seed() * 1000003 + 1600
     limits = [(None, None), (2, None), (4, None), (None, 2), (None, 3), (2, 2), (4, 3)]
     items = [(base + k, *limits[k % len(limits)]) for k in range(n)]
+    # hyper-contractions with two hyper indices under a limit of four / five simultaneously contracted objects
+    for k in range(12 if quick else 120):
+        items.append((base + 40000 + k, None if k % 3 else 4, 4 + k % 2, "two_hyper", 2 + k % 2))
     results = pmap(run_case, items, limit=240 if quick else 900)
     for r in results:
         st = r.get("status")
